@@ -52,6 +52,37 @@ def wire_oracle(ep, outs):
     return fails
 
 
+def front_live_episodes():
+    """liveness as wired into the real front end (cmd/helios handler with every shipped plugin in the chain, real
+    sockets): the breaker is tripped, its timeout passes, the half-open trial meets a backend that hangs or stops
+    mid-body — the handler deadline must end that trial so that its slot comes back —, the timeout passes again and
+    the recovered backend must be admitted and close the breaker"""
+    eps = []
+    for pl in (1, 0):
+        for trial in ("stall", "hang"):
+            eps.append(["ft new round_robin 1 0 0 %d" % pl] + ["ft req s500"] * 3 + ["ft wait 1150", "ft req " + trial, "ft wait 1150",
+                                                                              "ft req ok", "ft req ok", "ft close"])
+    return eps
+
+
+def front_live_oracle(ep, outs):
+    lines = C.op_lines(ep)
+    reqs = []
+    for l, o in zip(lines, outs):
+        if l.startswith("ft req"):
+            d = dict(t.split("=", 1) for t in o.split(" || ", 1)[-1].split() if "=" in t)
+            reqs.append((l.split()[2], d.get("class"), int(d.get("ms", "0"))))
+    if [r[0] for r in reqs][:3] != ["s500"] * 3 or len(reqs) != 6 or reqs[3][0] not in ("stall", "hang") or [r[0] for r in reqs[4:]] != ["ok", "ok"]:
+        return []           # (a shrunk episode)
+    fails = []
+    if reqs[3][2] > 2000 + 900:
+        fails.append("C08 (as wired): a half-open trial against a backend that %s was not ended by the handler deadline (2 s): it held its trial slot for %d ms" % (
+            "stops mid-body" if reqs[3][0] == "stall" else "never answers", reqs[3][2]))
+    elif reqs[4][1] != "200" or reqs[5][1] != "200":
+        fails.append("C08 (as wired): after the failed trial and another breaker timeout the recovered backend is still refused: answers %s, %s" % (reqs[4][1], reqs[5][1]))
+    return fails
+
+
 def check(ctx):
     ctx.assumptions += [
         "virtual clock via overlay; requests overlap at critical-section granularity",
@@ -66,6 +97,10 @@ def check(ctx):
         [wire_episode(ctx.rng) for _ in range(3000 if ctx.thorough() else 400)]
     dw.check(wired, oracle=wire_oracle, label="cb-config")
     ctx.cov["breaker_configs_through_validation_and_wiring"] = len(wired)
+    from . import c03
+    fl = front_live_episodes() if ctx.thorough() else [front_live_episodes()[0], front_live_episodes()[3]]
+    C.Differential(ctx, c03.build(ctx), timeout=600, project=c03.project, confirm=2).check(fl, oracle=front_live_oracle, label="cb-front-liveness")
+    ctx.cov["front_end_liveness_episodes"] = len(fl)
     if not ok:
         C.violation(ctx, "proof", {"what": "a proof obligation of C08 no longer checks",
                                    "broken": [o for o in ctx.obligations if not o[1]]},
